@@ -18,10 +18,11 @@ CHECKS = {
         "text": "Decides ONE clause of the property: a scan or lookup never returns an event of another stream / partition / id. For all paths: every batch returned by "
                 "BucketIter::next_batch went through filter_commit; StreamIterConfig::filter_commit keeps an event only on the equal edge of event.stream_id == self.stream_id; "
                 "each of the three sealed-segment index lookups that go through the MPHF returns Some only on the equal edge of a comparison of the key stored in the slot with "
-                "the key asked for. Exactness, order and gaplessness (offset-index arithmetic, block-cache boundaries, segment hand-over, reverse scans) are NOT decided: "
-                "they are arithmetic over runtime layouts and no sound structural rule exists for them.",
+                "the key asked for. Plus three structural necessary conditions of the other clauses: the scan cursor is read from the right end and field of the last commit, from "
+                "a commit that passed the filter, and a reverse scan starts at the mirrored index with no start position special-cased. Exactness, order and gaplessness as "
+                "such (offset-index arithmetic, block-cache boundaries, segment hand-over) are NOT decided: they are arithmetic over runtime layouts.",
         "note": NOTE + " This is a deliberately narrow claim; a seeded change in the iterator's segment hand-over (seeded/C15b) is not detected and is listed as such in DESIGN.md section 9.",
-        "technique": "static analysis: gating (dominance of an equality edge over every Some return), value-flow of returned batches through the filter, closure-return shape",
+        "technique": "static analysis: gating (dominance of an equality edge over every Some return), value-flow of returned batches and of the scan cursor through the filter, closure-return shape, linear index forms",
     },
     "C01": {
         "text": "For all paths: append_events returns Ok only after wait_for(synced >= its write offset); the synced offset is published only by "
